@@ -577,6 +577,13 @@ impl TDigestMut {
         };
         check_non_nan(min, "min")?;
         check_non_nan(max, "max")?;
+        // centroids and buffered values must be backed by the image
+        let (centroid_size, value_size) = if is_f32 { (8, 4) } else { (16, 8) };
+        if (num_centroids as u128) * centroid_size + (num_buffered as u128) * value_size
+            > cursor.remaining() as u128
+        {
+            return Err(Error::insufficient_data("centroids"));
+        }
         let mut centroids = Vec::with_capacity(num_centroids);
         let mut centroids_weight = 0u64;
         for _ in 0..num_centroids {
